@@ -7,9 +7,10 @@
 (* exercised together.                                                     *)
 (*                                                                         *)
 (*   BusOwner  runs a script (constant Script, e.g. MC_Link!ScriptAll):    *)
-(*             Set EID -> Get EID -> Get UUID -> Get Message Types ->      *)
-(*             enumerate the vendor sets by following the                  *)
-(*             selectors; a fresh instance id per request, bounded retry   *)
+(*             Set EID -> Get EID -> Get UUID -> Get Version -> Get        *)
+(*             Message Types -> a command the endpoint does not implement  *)
+(*             (answered with ErrorUnsupportedCmd) -> enumerate the vendor *)
+(*             sets by following the selectors; a fresh instance id per request, bounded retry   *)
 (*             on time-out; it accepts a response only if its own decoder  *)
 (*             accepts it and source, command and instance id match the    *)
 (*             outstanding request.                                        *)
@@ -31,9 +32,12 @@ ScriptLen == Len(Script)
 ReqFor(name, i, s) ==
     Frame(EpAddr, BoAddr, MT_CONTROL,
           << 128 + i, CASE name \in {"set", "set2"} -> 1 [] name = "geteid" -> 2 [] name = "uuid" -> 3
-                        [] name = "types" -> 5 [] name = "vendor" -> 6 >>
+                        [] name = "version" -> 4
+                        [] name = "types" -> 5 [] name = "vendor" -> 6 [] name = "unsupp" -> 7 >>
           \o (CASE name = "set" -> << 0, NewEid >> [] name = "set2" -> << 1, NewEid2 >>     \* set2: Force a second EID
-                 [] name = "vendor" -> << s >> [] OTHER -> << >>))
+                 [] name = "vendor" -> << s >> [] name = "version" -> << 255 >>       \* version of the base specification
+                 [] name = "unsupp" -> << 9 >>                                          \* Resolve Endpoint ID: not implemented
+                 [] OTHER -> << >>))
 
 (* a burst of at most 8 bits: XOR pattern pat (a byte) into byte k, or split over bytes k, k+1 by shift sh *)
 Corrupted(p, k, pat, sh) ==
@@ -55,7 +59,7 @@ Corrupted(p, k, pat, sh) ==
     pc_step = 1, iid = 0, tries = 0, sel = 0,
     outstanding = << >>,     \* the request awaiting an answer
     seen = << >>,            \* vendor sets collected so far
-    learned = [eid |-> -1, uuid |-> << >>, types |-> << -1 >>],
+    learned = [eid |-> -1, uuid |-> << >>, types |-> << -1 >>, version |-> << >>, unsupp |-> -1],
     done = FALSE, gaveUp = FALSE,
     \* ghosts for the properties
     badAccept = FALSE,       \* the endpoint accepted or answered a packet the wire had altered
@@ -92,7 +96,11 @@ Corrupted(p, k, pat, sh) ==
                 else if (Script[pc_step] = "geteid") { misMatch := misMatch \/ (r[13] # learned.eid /\ learned.eid # -1); }
                 else if (Script[pc_step] = "uuid")   { learned.uuid := SubSeq(r, 13, Len(r) - 1); }
                 else if (Script[pc_step] = "types")  { learned.types := SubSeq(r, 13, Len(r) - 1); }
+                else if (Script[pc_step] = "version") { learned.version := SubSeq(r, 13, Len(r) - 1); }
                 else if (Script[pc_step] = "vendor") { seen := Append(seen, SubSeq(r, 14, Len(r) - 1)); };
+              } else if (Script[pc_step] = "unsupp") {
+                \* an error completion code is an answer too: the bus owner notes it and moves on
+                learned.unsupp := d.cc;
               };
               if (Script[pc_step] = "vendor" /\ d.kind = "ok" /\ r[13] # 255) {
                 sel := r[13];
@@ -135,7 +143,7 @@ Corrupted(p, k, pat, sh) ==
   proc:
         await toBo = << >>;
         if (rx # << >>) {
-          with (x = Proc(rx, m, O)) {
+          with (x = ProcE(rx, m, O)) {
             badAccept := badAccept \/ (rxFaulted /\ (x.kind = "ok" \/ x.has \/ x.neweid # -1));
             if (x.neweid # -1) { m := [m EXCEPT !.eidReq = x.neweid, !.eidResp = x.neweid]; };
             if (x.has) { toBo := x.resp; };
@@ -187,7 +195,7 @@ Init == (* Global variables *)
         /\ sel = 0
         /\ outstanding = << >>
         /\ seen = << >>
-        /\ learned = [eid |-> -1, uuid |-> << >>, types |-> << -1 >>]
+        /\ learned = [eid |-> -1, uuid |-> << >>, types |-> << -1 >>, version |-> << >>, unsupp |-> -1]
         /\ done = FALSE
         /\ gaveUp = FALSE
         /\ badAccept = FALSE
@@ -230,15 +238,20 @@ bo == /\ pc["bo"] = "bo"
                                                                                 ELSE /\ IF Script[pc_step] = "types"
                                                                                            THEN /\ learned' = [learned EXCEPT !.types = SubSeq(r, 13, Len(r) - 1)]
                                                                                                 /\ seen' = seen
-                                                                                           ELSE /\ IF Script[pc_step] = "vendor"
-                                                                                                      THEN /\ seen' = Append(seen, SubSeq(r, 14, Len(r) - 1))
-                                                                                                      ELSE /\ TRUE
+                                                                                           ELSE /\ IF Script[pc_step] = "version"
+                                                                                                      THEN /\ learned' = [learned EXCEPT !.version = SubSeq(r, 13, Len(r) - 1)]
                                                                                                            /\ seen' = seen
-                                                                                                /\ UNCHANGED learned
+                                                                                                      ELSE /\ IF Script[pc_step] = "vendor"
+                                                                                                                 THEN /\ seen' = Append(seen, SubSeq(r, 14, Len(r) - 1))
+                                                                                                                 ELSE /\ TRUE
+                                                                                                                      /\ seen' = seen
+                                                                                                           /\ UNCHANGED learned
                                                                           /\ UNCHANGED misMatch
-                                               ELSE /\ TRUE
+                                               ELSE /\ IF Script[pc_step] = "unsupp"
+                                                          THEN /\ learned' = [learned EXCEPT !.unsupp = d.cc]
+                                                          ELSE /\ TRUE
+                                                               /\ UNCHANGED learned
                                                     /\ UNCHANGED << seen, 
-                                                                    learned, 
                                                                     misMatch >>
                                          /\ IF Script[pc_step] = "vendor" /\ d.kind = "ok" /\ r[13] # 255
                                                THEN /\ sel' = r[13]
@@ -310,7 +323,7 @@ probe == /\ pc["ep"] = "probe"
 proc == /\ pc["ep"] = "proc"
         /\ toBo = << >>
         /\ IF rx # << >>
-              THEN /\ LET x == Proc(rx, m, O) IN
+              THEN /\ LET x == ProcE(rx, m, O) IN
                         /\ badAccept' = (badAccept \/ (rxFaulted /\ (x.kind = "ok" \/ x.has \/ x.neweid # -1)))
                         /\ IF x.neweid # -1
                               THEN /\ m' = [m EXCEPT !.eidReq = x.neweid, !.eidResp = x.neweid]
@@ -380,6 +393,11 @@ EidAgreement == learned.eid # -1 =>
 (* C15: what the bus owner learned is what the endpoint was configured with *)
 IdentityOk == /\ learned.uuid # << >> => learned.uuid = Uuid
               /\ learned.types # << -1 >> => learned.types = << Len(Mts) >> \o Mts
+              /\ learned.version # << >> => learned.version = VersionEntry
+(* X01 / DSP0236: a command the endpoint does not implement is answered with ErrorUnsupportedCmd, *)
+(* changes nothing, and the bring-up moves past it                                               *)
+UnsuppAnswered == /\ learned.unsupp \in {-1, CC_UNSUPPORTED}
+                  /\ (done /\ \E k \in 1..ScriptLen : Script[k] = "unsupp") => learned.unsupp = CC_UNSUPPORTED
 (* C14: the sets seen so far are a prefix of the configured ones, each once, in order *)
 VField(v) == IF v.format = 0 THEN << 0, v.data[3], v.data[4] >> \o v.num ELSE << 1 >> \o v.data \o v.num
 SeenIsPrefix == /\ Len(seen) <= Len(Vids)
